@@ -801,6 +801,8 @@ func runStress(r *hx.Run, f []string) {
 		stressEvictSame(r, f)
 	case "wg":
 		stressWG(r, f)
+	case "sizes":
+		stressSizes(r, f)
 	default:
 		r.Line(strings.Join(f, " "), "bad-op")
 	}
